@@ -27,7 +27,8 @@ type Params struct {
 	MaxLen   int    `json:"max_len"`   // part A: all class strings up to this length
 	Random   int    `json:"random"`    // part B: number of generated texts to mutate
 	RandomSeeded int `json:"random_seeded"` // seeded part (defaults to Random)
-	Parts    string `json:"parts"`     // "AB"
+	Parts    string `json:"parts"`     // "ASB"
+	StrItems int    `json:"str_items"` // part S: string literals of up to this many catalogue items
 }
 
 // delegate target: an Unmarshaler that accepts whatever bytes it is given
@@ -326,6 +327,9 @@ func Run(job *wk.Job, w *wk.Worker) error {
 	if p.Parts == "" || containsByte(p.Parts, 'A') {
 		idx = r.partA(p.MaxLen, idx)
 	}
+	if containsByte(p.Parts, 'S') || p.Parts == "" {
+		idx = r.partS(p.StrItems, idx)
+	}
 	if containsByte(p.Parts, 'B') || p.Parts == "" {
 		// B0: fixed seed, so its divergences are countable between runs; B: seeded by VERIF_SEED
 		idx = r.partB("B0", p.Random, 0, idx, true)
@@ -384,6 +388,44 @@ func (r *runner) partA(maxLen int, idx int64) int64 {
 		}
 	}
 	rec()
+	return idx
+}
+
+// partS: string literals built from the item catalogue (as a value and as an object key), each
+// with every single-byte substitution from jt.MutationBytes, every deletion and every truncation.
+// Deterministic, hence counted.  The reference verdict still comes from the JsonText automaton.
+func (r *runner) partS(maxItems int, idx int64) int64 {
+	if maxItems == 0 {
+		maxItems = 2
+	}
+	frames := []struct{ pre, post string }{{`"`, `"`}, {`{"`, `":1}`}, {`["`, `",1]`}}
+	jt.EachItemString(maxItems, func(names []string, body string) {
+		for fi, f := range frames {
+			if r.w.Mine(idx) {
+				txt := []byte(f.pre + body + f.post)
+				lo, hi := len(f.pre)-1, len(f.pre)+len(body)+1 // mutate the literal including its quotes
+				r.w.Begin(idx, func() interface{} { return desc("S", "*", txt) })
+				r.w.Nontrivial()
+				if r.w.WantSample() && len(names) == 2 && fi == 1 {
+					r.w.Sample(map[string]interface{}{"part": "S", "items": names, "input": fmt.Sprintf("%q", txt)})
+				}
+				r.check("A", txt, true)
+				for i := lo; i < hi; i++ {
+					for _, mb := range jt.MutationBytes {
+						if txt[i] == mb {
+							continue
+						}
+						m := append([]byte(nil), txt...)
+						m[i] = mb
+						r.check("A", m, true)
+					}
+					r.check("A", append(append([]byte(nil), txt[:i]...), txt[i+1:]...), true)
+					r.check("A", txt[:i], true)
+				}
+			}
+			idx++
+		}
+	})
 	return idx
 }
 
